@@ -417,6 +417,11 @@ func (s *scen) checkC06(site string) []ev.Violation {
 			if ps.GT(h) {
 				shape = "providers>validators"
 			}
+			// a delegator with a pending validator redelegation is told apart from one without: the slash of a
+			// redelegation entry is a different code path (and a recorded finding) from the slash of a plain delegation
+			if acc, err := sdk.AccAddressFromBech32(d); err == nil && len(w.Keepers.StakingKeeper.GetRedelegations(w.Ctx, acc, 8)) > 0 {
+				shape += ":redelegator"
+			}
 			out = append(out, ev.Violation{Property: "C06", Key: fmt.Sprintf("imbalance:%s:%s", site, shape),
 				What: fmt.Sprintf("delegator %s: provider delegations sum %s, validator tokens in [%s,%s], rounding tolerance %d", s.who(d), ps, l, h, tau)})
 		}
